@@ -427,7 +427,7 @@ func ruleC19Unknown(p *Prog, a *Anchors, r *Report) {
 				return
 			}
 			top := topLevel(f).Name()
-			if top == "FilterExists" || strings.HasPrefix(top, "Register") || strings.HasPrefix(top, "Replace") || top == "BanTag" || top == "BanFilter" {
+			if top == "FilterExists" || existsPredicate(p, topLevel(f), reg) || strings.HasPrefix(top, "Register") || strings.HasPrefix(top, "Replace") || top == "BanTag" || top == "BanFilter" {
 				r.Trivial(key+":api", pos, "registry API itself")
 				return
 			}
@@ -521,8 +521,8 @@ func ruleC19Reg(p *Prog, a *Anchors, r *Report) {
 					if lk := lookupCommaOk(c); lk != nil && isLoadOfGlobal(lk.X, reg) && p.VN(lk.Index) == p.VN(mu.Key) {
 						return true
 					}
-					// FilterExists(name)
-					if call, ok := c.(*ssa.Call); ok && call.Common().StaticCallee() != nil && call.Common().StaticCallee().Name() == "FilterExists" && p.VN(call.Common().Args[0]) == p.VN(mu.Key) && reg == a.FilterRegistry {
+					// FilterExists(name) / tagExists(name): a predicate wrapping the comma-ok lookup
+					if call, ok := c.(*ssa.Call); ok && call.Common().StaticCallee() != nil && existsPredicate(p, call.Common().StaticCallee(), reg) && p.VN(call.Common().Args[0]) == p.VN(mu.Key) {
 						return true
 					}
 					return false
